@@ -713,47 +713,70 @@ def rule_high_byte_by_shift(ctx):
 
 
 def rule_nt_class_from_type(ctx):
-    """NTCLASS+ (C09, C06): the little-endian class byte (DFNTF_PC) goes into a number-type record exactly when the number type of the
-    data carries DFNT_LITEND.  The store `ntstring[3] = DFNTF_PC` must therefore sit under a test of that flag (`nt & DFNT_LITEND`
-    or DFKislitendNT) — not under a test of some other field of the record (the file sub-class of an image created in this
-    session is still the default, so a test of it never fires for a freshly created little-endian image)."""
+    """NTCLASS+ (C09, C06, C15): the little-endian class byte (DFNTF_PC) goes into a number-type record exactly when the number type of
+    the data carries DFNT_LITEND.  Every store of DFNTF_PC - `ntstring[3] = DFNTF_PC`, `outNT = DFNTF_PC`, or the arm of a
+    conditional expression - is chosen by a *bit test* of that flag (`nt & DFNT_LITEND`, or DFKislitendNT): not by a test of
+    some other field of the record (the file sub-class of an image created in this session is still the default), and not by
+    comparing the whole type with the flag (`type == DFNT_LITEND` is never true for a real type).  And a routine that writes a
+    number-type record for data whose type may be little-endian (it names DFNT_LITEND or DFNT_NATIVE) has such a store."""
     from .codec import ast_walk
     from .facts import int_name, is_int
     prog = ctx.prog
     n = 0
+
+    def bit_test(c):
+        for y in walk(c, True):
+            if y[0] == "bin" and y[1] == "&" and "DFNT_LITEND" in (int_name(y[2]), int_name(y[3])):
+                return True
+            if y[0] == "bin" and y[1] == "&" and any(z[0] == "int" and int_name(z) == "DFNT_LITEND" for z in walk(y, True)):
+                return True
+            if y[0] == "call" and y[1] == "DFKislitendNT":
+                return True
+        return False
+
     for f in prog.lib_funcs():
         if not f.raw.get("ast"):
             continue
         sites = []
 
         def vis(nd, st):
-            if nd[0] == "s":
+            if nd[0] == "s" and nd[1] is not None:
                 for x in walk(nd[1], True):
-                    if x[0] == "asg" and x[1] == "=" and int_name(x[3]) == "DFNTF_PC":
-                        t = strip(x[2])
-                        if kind(t) == "idx" and is_int(t[2], 3):
-                            sites.append((nd, list(st)))
+                    if x[0] == "asg" and x[1] == "=":
+                        r = strip(x[3])
+                        if int_name(r) == "DFNTF_PC":
+                            conds = [a[1] for a in st if a[0] == "if" and a[1] is not None]
+                            sites.append((nd, conds[-1] if conds else None))
+                        else:
+                            for y in walk(x[3], True):
+                                if y[0] == "cond" and (int_name(y[2]) == "DFNTF_PC" or int_name(y[3]) == "DFNTF_PC"):
+                                    sites.append((nd, y[1]))
             return True
 
         ast_walk(f.raw["ast"], vis)
-        for k, (nd, st) in enumerate(sites):
+        for k, (nd, guard) in enumerate(sites):
             n += 1
             key = "NTCLASS+:%s#%d" % (f.name, k + 1)
             line = nd[-3] if isinstance(nd[-3], int) else f.line
-            chain = st + [nd]
-            ok = False
-            guard = None
-            for i, s_ in enumerate(st):
-                if s_[0] == "if" and chain[i + 1] is s_[2]:
-                    guard = s_
-                    if any((y[0] == "int" and int_name(y) == "DFNT_LITEND") or (y[0] == "call" and y[1] == "DFKislitendNT") for y in walk(s_[1], True)):
-                        ok = True
-            if ok:
-                ctx.holds("NTCLASS+", key, f.where(line), "the little-endian class is recorded under a test of the type's DFNT_LITEND flag", nontrivial=True)
+            if guard is not None and bit_test(guard):
+                ctx.holds("NTCLASS+", key, f.where(line), "the little-endian class is recorded under a bit test of the type's DFNT_LITEND flag", nontrivial=True)
             else:
-                ctx.violated("NTCLASS+", key, f.where(line), "the little-endian class byte is recorded under `%s`, not under a test of the number type's DFNT_LITEND flag: a little-endian object gets the wrong byte-order class and reads back byte-swapped after reopen" %
-                             (render(guard[1])[:60] if guard else "no condition"))
-    ctx.floor("NTCLASS+", 1, n, "(stores of the little-endian class byte into a number-type record)")
+                ctx.violated("NTCLASS+", key, f.where(line), "the little-endian class byte is recorded under `%s`, not under a bit test of the number type's DFNT_LITEND flag: a little-endian object gets the wrong byte-order class and reads back byte-swapped through the other interfaces" %
+                             (render(guard)[:60] if guard is not None else "no condition"))
+        # writers of a number-type record for data that may be little-endian
+        writes_nt = sum(1 for _b, _i, _s, c in f.calls() if c[1] == "Hputelement" and len(c[3]) > 3 and any(z[0] == "var" and z[1] == "ntstring" for z in walk(c[3][3], True)))
+        flavoured = any(x[0] == "int" and int_name(x) in ("DFNT_LITEND", "DFNT_NATIVE") for _b, _i, _s, x in f.nodes(True))
+        # the class byte taken from the record's file sub-class field: for an object created in this session that field is
+        # still the default
+        for _b, _i, s_, x in f.nodes(True):
+            if x[0] == "asg" and x[1] == "=" and kind(strip(x[2])) == "idx" and kind(strip(strip(x[2])[1])) == "var" and strip(strip(x[2])[1])[1] == "ntstring" and is_int(strip(x[2])[2], 3):
+                if any(y[0] == "mem" and y[2] == "file_nt_subclass" for y in walk(x[3], True)):
+                    n += 1
+                    ctx.violated("NTCLASS+", "NTCLASS+:%s:subclass" % f.name, f.where(s_.get("l", f.line)), "the class byte of the number-type record is copied from `file_nt_subclass`, which describes what was read from a file: an object created in this session still has the default there, whatever its number type says")
+        if writes_nt and flavoured and not sites:
+            n += 1
+            ctx.violated("NTCLASS+", "NTCLASS+:%s:writer" % f.name, f.where(), "the routine writes a number-type record and knows about the little-endian/native flags, but never stores DFNTF_PC: a little-endian object is recorded with whatever class another field holds")
+    ctx.floor("NTCLASS+", 2, n, "(stores of the little-endian class byte into a number-type record)")
     return n
 
 
